@@ -371,7 +371,10 @@ def compare(program, live_fi, ref_fi, effects=default_effects, **kw):
             return (nm not in idents or nm == "__init__") \
                 and (not nm.startswith("__") or (
                     nm == "__init__" and f is not live_fi
-                    and getattr(f, "cls", None) is not None)) \
+                    and getattr(f, "cls", None) is not None
+                    and getattr(live_fi, "cls", None) is not None
+                    and f.cls.qualname in program.model.mro(
+                        live_fi.cls.qualname)[1:])) \
                 and not has_semantic_decorator(f) \
                 and sum(1 for _ in ast.walk(f.node)) < 400
         kw2 = dict(kw, live_kw=dict(kw["live_kw"], inline=inl))
